@@ -88,6 +88,24 @@ func (k *KittyImage) Draw(win Window) {
 	}
 	col, row := win.Origin()
 	log.Trace("placing kitty image at cell %d,%d", col, row)
+	// Only the part of the image which lies inside the window is shown: a
+	// placement that is larger than the window displays a source rectangle
+	// of the window's size
+	w, h := k.w, k.h
+	crop := ""
+	if ww, wh := win.Size(); w > ww || h > wh {
+		if ww <= 0 || wh <= 0 {
+			return
+		}
+		if w > ww {
+			w = ww
+			crop += fmt.Sprintf(",w=%d", w*(k.vx.winSize.XPixel/k.vx.winSize.Cols))
+		}
+		if h > wh {
+			h = wh
+			crop += fmt.Sprintf(",h=%d", h*(k.vx.winSize.YPixel/k.vx.winSize.Rows))
+		}
+	}
 	// the pid is a 32 bit number where the high 16bits are the width and
 	// the low 16 are the height
 	pid := uint(col)<<16 | uint(row)
@@ -97,7 +115,7 @@ func (k *KittyImage) Draw(win Window) {
 			atomicStore(&k.uploaded, true)
 			k.buf.Reset()
 		}
-		fmt.Fprintf(w, "\x1B_Ga=p,i=%d,p=%d,C=1\x1B\\", k.id, pid)
+		fmt.Fprintf(w, "\x1B_Ga=p,i=%d,p=%d,C=1%s\x1B\\", k.id, pid, crop)
 	}
 	deleteFunc := func(w io.Writer) {
 		fmt.Fprintf(w, "\x1B_Ga=d,d=i,i=%d,p=%d\x1B\\", k.id, pid)
@@ -106,8 +124,8 @@ func (k *KittyImage) Draw(win Window) {
 		col:      col,
 		row:      row,
 		id:       k.id,
-		w:        k.w,
-		h:        k.h,
+		w:        w,
+		h:        h,
 		writeTo:  writeFunc,
 		deleteFn: deleteFunc,
 	}
